@@ -456,28 +456,48 @@ theorem intDec_noLT (z : Int) : ∀ c ∈ intDec z, c ≠ cLT := by
 theorem dropWhile_head {p : Nat → Bool} {c : Nat} {r : Bytes} (h : p c = false) : (c :: r).dropWhile p = c :: r := by
   simp [List.dropWhile, h]
 
-theorem intOfOctets_intOctets (r : IntRepr) (z : Int) (hz : -(2 ^ 63) ≤ z ∧ z < 2 ^ 63) (hr : r = .ulong → 0 ≤ z) :
+/-- the INTEGER values a representation holds and the XER decoder reads back: `long`; for `unsigned long` the
+    whole range 0 .. 2^64-1 (finding F125 repaired: it ended at 2^63-1); for `INTEGER_t` the decimal form, which
+    ends at `long` ("We model INTEGER on long for XER") -/
+def intRange (r : IntRepr) (z : Int) : Prop :=
+  (-(2 ^ 63) ≤ z ∧ z < 2 ^ 63 ∧ (r = .ulong → 0 ≤ z)) ∨ (r = .ulong ∧ 2 ^ 63 ≤ z ∧ z < 2 ^ 64)
+
+instance (r : IntRepr) (z : Int) : Decidable (intRange r z) := by unfold intRange; infer_instance
+
+theorem intOfOctets_intOctets (r : IntRepr) (z : Int) (hz : intRange r z) :
     intOfOctets r (intOctets z) = some z := by
+  unfold intRange at hz
   cases r with
   | wide => simp [intOfOctets, Asn1c.Proofs.L2Der.twosVal_intOctets]
-  | long => simp only [intOfOctets, Asn1c.Proofs.L2Der.twosVal_intOctets]; rw [if_pos hz]
+  | long =>
+    simp only [intOfOctets, Asn1c.Proofs.L2Der.twosVal_intOctets]
+    rcases hz with ⟨h1, h2, _⟩ | ⟨h, _⟩
+    · rw [if_pos ⟨h1, h2⟩]
+    · cases h
   | ulong =>
-    have h0 := hr rfl
+    have h0 : 0 ≤ z ∧ z < 2 ^ 64 := by
+      rcases hz with ⟨_, h2, h3⟩ | ⟨_, h2, h3⟩
+      · exact ⟨h3 rfl, by omega⟩
+      · exact ⟨by omega, h3⟩
     obtain ⟨b, bs, he, hb, _, hv, _⟩ := Asn1c.Proofs.L2Der.natOctets_props z.toNat
     have : intOctets z = b :: bs := by unfold intOctets; rw [if_pos (by omega), he]
     simp only [intOfOctets, this, hv]
     rw [if_neg (by omega), if_pos (by omega)]
     congr 1; omega
 
-theorem intBody_intDec (r : IntRepr) (names : List Bytes) (vals : List Int) (z : Int)
-    (hz : -(2 ^ 63) ≤ z ∧ z < 2 ^ 63) (hr : r = .ulong → 0 ≤ z) :
+theorem intBody_intDec (r : IntRepr) (names : List Bytes) (vals : List Int) (z : Int) (hz : intRange r z) :
     intBody r names vals (intDec z) = .consumed (.int z) := by
   obtain ⟨c, rest, he, hws, hlt⟩ := intDec_head z
   have h1 : (intDec z).dropWhile isWsP = c :: rest := by rw [he]; exact dropWhile_head hws
   have h2 := intDecScan_intDec z
   have h3 := numeralVal_intDec z
+  have h4 : (-(2 ^ 63) ≤ z ∧ z < 2 ^ 63) ∨ (r = .ulong ∧ 2 ^ 63 ≤ z ∧ z < 2 ^ 64) := by
+    unfold intRange at hz
+    rcases hz with ⟨a, b, _⟩ | h
+    · exact Or.inl ⟨a, b⟩
+    · exact Or.inr h
   unfold intBody
-  simp only [h1, hlt, if_false, h2, h3, hz.1, hz.2, and_self, if_true, intOfOctets_intOctets r z hz hr]
+  simp only [h1, hlt, if_false, h2, h3, h4, if_true, intOfOctets_intOctets r z hz]
 
 /-! ### ENUMERATED -/
 
@@ -555,8 +575,9 @@ theorem intBody_enum (ns : List Bytes) (vs : List Int) (z : Int) (n : Bytes) (ho
   have h1 : (emptyTag n).dropWhile isWsP = cLT :: (n ++ [cSL, cGT]) := by
     simp only [emptyTag]; exact dropWhile_head (by decide)
   unfold intBody
-  simp only [h1, if_true, enumLookup_emptyTag ns vs z n hn hnd h, hvals z hz, and_self,
-    intOfOctets_intOctets .long z (hvals z hz) (by intro h; cases h)]
+  have hr : intRange .long z := Or.inl ⟨(hvals z hz).1, (hvals z hz).2, by intro h; cases h⟩
+  have h4 : (-(2 ^ 63) ≤ z ∧ z < 2 ^ 63) ∨ (IntRepr.long = .ulong ∧ 2 ^ 63 ≤ z ∧ z < 2 ^ 64) := Or.inl (hvals z hz)
+  simp only [h1, if_true, enumLookup_emptyTag ns vs z n hn hnd h, h4, intOfOctets_intOctets .long z hr]
 
 /-! ### BOOLEAN, NULL -/
 
@@ -1356,7 +1377,7 @@ end
 
 mutual
 /-- the values covered by the round trip in the variant `c` (CANONICAL-XER when `c`): of the right shape, INTEGER
-    within `long`, ENUMERATED one of the items; a component may be absent only when it is OPTIONAL / an extension
+    within `long` - `unsigned long` for the unsigned native representation (`intRange`) -, ENUMERATED one of the items; a component may be absent only when it is OPTIONAL / an extension
     addition / DEFAULT, and
     * BASIC-XER (the encoder substitutes the default value for an absent DEFAULT component): a DEFAULT component
       with a value the encoder substitutes is stored explicitly;
@@ -1364,7 +1385,7 @@ mutual
 def rtVal (c : Bool) : XTy → Val → Bool
   | .boolean, .bool _ => true
   | .null, .null => true
-  | .integer r, .int z => decide (-(2 ^ 63) ≤ z ∧ z < 2 ^ 63) && (r != .ulong || decide (0 ≤ z))
+  | .integer r, .int z => decide (intRange r z)
   | .enumerated ns vs, .int z => (lookupName ns vs z).isSome
   | .hexstr, .octets bs => bs.all (· < 256)
   | .bitstr, .bits bs u => bitsOk bs u
@@ -1457,21 +1478,33 @@ theorem rt_integer (r : IntRepr) : RT (.integer r) := by
   obtain ⟨f, rfl⟩ : ∃ f, fuel = f + 1 := ⟨fuel - 1, by omega⟩
   cases v with
   | int z =>
-    simp only [rtVal, Bool.and_eq_true, decide_eq_true_eq, Bool.or_eq_true, bne_iff_ne, ne_eq] at hv
-    obtain ⟨hz, hr⟩ := hv
-    have hr' : r = .ulong → 0 ≤ z := fun h => by rcases hr with h' | h'; exact absurd h h'; exact h'
+    simp only [rtVal, decide_eq_true_eq] at hv
     have henc : encInt r z = some (intDec z) := by
+      have hv' := hv
+      unfold intRange at hv'
       cases r with
-      | long => simp only [encInt]; rw [if_pos hz]
-      | wide => simp only [encInt]; rw [if_pos hz]
-      | ulong => simp only [encInt]; rw [if_pos ⟨hr' rfl, hz.2⟩]
+      | long =>
+        simp only [encInt]
+        rcases hv' with ⟨a, b, _⟩ | ⟨h, _⟩
+        · rw [if_pos ⟨a, b⟩]
+        · cases h
+      | wide =>
+        simp only [encInt]
+        rcases hv' with ⟨a, b, _⟩ | ⟨h, _⟩
+        · rw [if_pos ⟨a, b⟩]
+        · cases h
+      | ulong =>
+        simp only [encInt]
+        rcases hv' with ⟨_, b, h0⟩ | ⟨_, a, b⟩
+        · rw [if_pos ⟨h0 rfl, by omega⟩]
+        · rw [if_pos ⟨by omega, b⟩]
     simp only [encTy, henc, Option.some.injEq] at he
     subst he
     obtain ⟨ch, rs, hd, hws, _⟩ := intDec_head z
     simp only [decTy]
     apply decPrim_text _ name hname (intDec z) rest _ (by rw [hd]; simp) (intDec_noLT z)
     rw [hd, dropWhile_head hws, ← hd]
-    exact intBody_intDec r [] [] z hz hr'
+    exact intBody_intDec r [] [] z hv
   | _ => simp [rtVal] at hv
 
 theorem rt_enumerated (ns : List Bytes) (vs : List Int) (hok : enumOkB ns vs = true) : RT (.enumerated ns vs) := by
